@@ -72,6 +72,10 @@ def run(env, tier, seed, broken=None):
     bangla = [chr(c) for c in range(0x980, 0xA00) if unicodedata.category(chr(c)) != 'Cn']
     decomposable = [chr(c) for c in range(0x980, 0xA00) if unicodedata.normalize('NFD', chr(c)) != chr(c)]
     strs = ['100%', '%d', '%!', 'a%sb%v', '%%', 'trail\n', '\n', '\n\n', 'a\n\nb\n', '', 'a', 'abc', 'x y', 'তারিখ', 'ক্ষ', 'কো', 'কো', '\u09df', '\u09af\u09bc', 'ড়ঢ়', 'é', 'é', 'Å', 'ñ', 'Ω', '1e3', ' pad ', 'tab\there', 'quote\'s', 'back\\slash', 'new\nline']
+    # long lines: texts around 4096 / 8192 / 65536 BYTES that are much shorter in CHARACTERS (three-byte letters), alone and in containers
+    for k in (1360, 1365, 1366, 1370, 2000, 2730, 2731, 4095, 4096, 4097, 5000, 21845, 21846, 30000):
+        strs.append('ক' * k)
+        strs.append('ab' + 'খগ' * (k // 2))
     # characters with a compatibility (not canonical) decomposition must come out unchanged: NFC, not NFKC
     strs += ['o\ufb03ce x\u00b2 \u2460 \u210c \u00bd \u2026 \u2122', '\uff21\uff22', 'a\u00a0b', '\u2126 \u212b \u212a', '\ufb2c', '\u1e9b\u0323', '\u3392', '\u00b5m']
     strs += decomposable + [unicodedata.normalize('NFD', c) for c in decomposable] + ['ক' + c for c in bangla if unicodedata.combining(c)]
